@@ -1,10 +1,11 @@
 """C08 — market-level property: theorems in lean/PamsProps/C08.lean, tie = Driver/Market.lean"""
 import market_checks
+import py_checks
 
 PROP = "C08"
 LEAN_MODULES = ["PamsProps.C08"]
 NAMESPACES = ["Pams.C08"]
-DRIVERS = ["Market", "Sim"]
+DRIVERS = ["Market", "Sim", "PyRun"]
 TRUSTED = [
     "modelled, not verified: heapq (abstracted to the sorted list; pop order compared on every state), Order.__eq__-based list.remove, IEEE doubles used only through <,== (monotone integer keys)",
     "generators/abstraction in harness/impl_market.py",
@@ -13,7 +14,9 @@ ASSUMPTIONS = ["agents do not mutate an order after acceptance", "prices are fin
 
 
 def run(ctx, model_available=True):
-    return market_checks.run_market_property(ctx, PROP, model_available=model_available)
+    res = market_checks.run_market_property(ctx, PROP, model_available=model_available)
+    # (T2) the translated source of the market operations under the mini-Python semantics, against CPython
+    return py_checks.merge(res, ctx, ["marketop"], n_each=120, model_available=model_available)
 
 
 def search(ctx, res):
